@@ -125,3 +125,40 @@ static Reg r_c6enc("c6encodings", [](std::vector<std::string> const& a) -> std::
     for (size_t i = 0; i < v.size(); ++i) { if (i) out += ","; out += hex(v[i]); }
     return out.empty() ? "-" : out;
 });
+
+// c6lazy <path-hex> <P:hexpw | H:hexkey | N> <highest object number>: a fresh QPDF; every object is fetched on its own and, when it is a stream, its raw
+// data is read right after the object was parsed (the order in which a lazily resolved object is consumed by the writer and
+// by --show-object): exercises the per-object key cache of QPDF::getKeyForObject. Output: leaves as in c6leaves.
+static Reg r_c6lazy("c6lazy", [](std::vector<std::string> const& a) -> std::string {
+    std::string path = unhex(a.at(0));
+    std::string sec = a.at(1);
+    QPDF pdf;
+    pdf.setSuppressWarnings(true);
+    std::string pw;
+    bool have_pw = false;
+    if (sec[0] == 'H') { pdf.setPasswordIsHexKey(true); pw = sec.substr(2); have_pw = true; }
+    else if (sec[0] == 'P') { pw = unhex(sec.substr(2)); have_pw = true; }
+    try {
+        pdf.processFile(path.c_str(), have_pw ? pw.c_str() : nullptr);
+    } catch (QPDFExc const& e) {
+        return "err " + c6_clean(e.getMessageDetail());
+    }
+    std::string leaves;
+    // (getObjectCount() would resolve every object first: the highest object number is an argument)
+    size_t n = static_cast<size_t>(std::stoul(a.at(2)));
+    for (size_t id = 1; id <= n; ++id) {
+        try {
+            auto o = pdf.getObject(static_cast<int>(id), 0);
+            if (o.isNull()) continue;
+            std::string prefix = std::to_string(id) + ".0";
+            c6_walk(o, "", prefix, leaves, 0);
+            if (o.isStream()) {
+                auto buf = o.getRawStreamData();
+                leaves += prefix + ":t:-=" + hex(std::string(reinterpret_cast<char const*>(buf->getBuffer()), buf->getSize())) + ";";
+            }
+        } catch (std::exception const& e) {
+            leaves += std::to_string(id) + ".0:t:-=!" + c6_clean(e.what()) + ";";
+        }
+    }
+    return "ok leaves=" + (leaves.empty() ? "-" : leaves);
+});
